@@ -303,6 +303,7 @@ class C01:
                         retired = True
                 rec.events.clear()
                 rec.calls.clear()
+                rec.call_cfgs.clear()
                 bump("prior_ops")
                 continue
             run_machine, run_rec = machine, rec
@@ -352,6 +353,7 @@ class C01:
                     continue
                 run_rec.events.clear()
                 run_rec.calls.clear()
+                run_rec.call_cfgs.clear()
                 ok, out = runner.do_run(run_machine, ds, copy.deepcopy(checked))
                 bump("run_ops")
                 if not ok:
@@ -388,6 +390,18 @@ class C01:
                         viol.append({"class": "C01.sides", "sig": {"kind": e["kind"], "got": sides,
                                                                    "expected": sides_exp}, "name": e["name"]})
                         break
+                    if e["kind"] == "filter":
+                        # run as written: the object that filters for this step carries this step's own parameters
+                        want = dict(prog)[e["name"]]
+                        for (seq, m, ocfg) in run_rec.call_cfgs:
+                            if seq != e["seq"] or m != meth:
+                                continue
+                            bad = {k: [v, ocfg.get(k)] for k, v in want.items()
+                                   if isinstance(v, (int, float, str)) and k in ocfg and ocfg.get(k) != v}
+                            if bad:
+                                viol.append({"class": "C01.step_object_has_other_parameters",
+                                             "sig": {"kind": "filter", "keys": sorted(bad)}, "name": e["name"], "diff": bad})
+                                break
                     if e["kind"] == "validation" and "interpolated_disparity" in dict(prog)[e["name"]]:
                         isides = [s for (seq, m, s) in run_rec.calls if seq == e["seq"] and m == "interpolated_disparity"]
                         if isides != ["L", "R"]:
